@@ -1171,6 +1171,15 @@ class Executor:
                 return ("lock", v.fields[1].data, mode)
             return None
         if key in self.VISIBLE_IO:
+            # only the blob directory (cas/, staging/) is shared without a lock; WAL segments, the snapshot and its temp file
+            # are touched under the wal/state locks, whose acquisitions are scheduling points already
+            try:
+                from iomodel import path_desc
+                heads = [path_desc(st, a)[0] for a in args]
+            except Exception:  # noqa: BLE001
+                heads = ["unknown"]
+            if heads and all(h in ("wal", "index", "index.tmp", "root", "lock", "settings", "settings.tmp", "quarantine") for h in heads):
+                return None
             return ("io", key)
         return None
 
@@ -1271,7 +1280,7 @@ def _has_droppable(v):
     if isinstance(v, VGuard):
         return v.live
     if isinstance(v, VStruct):
-        return v.name in ("NamedTempFile", "BufWriter") or any(_has_droppable(f) for f in v.fields)
+        return v.name in ("NamedTempFile", "BufWriter", "TempPath") or any(_has_droppable(f) for f in v.fields)
     if isinstance(v, VEnum):
         return any(_has_droppable(f) for fl in v.payloads.values() for f in fl)
     if isinstance(v, VVec):
